@@ -216,3 +216,14 @@ register(
     "layouts are not decided.",
     [r10.r10c_constructors_agree, r10.r10d_mark_before_analyse, r10.r10e_walkers, r10.r10g_no_stale_snapshot, r1.r1d_recursion],
 )
+
+from . import r9
+
+register(
+    "C15",
+    "Unit-discipline clause of reported positions: (R9a) byte-unit columns (recorded start_char/end_char/char_pos, "
+    "str::find results) must not reach Position.character (UTF-16) unconverted, (R9b) the request's UTF-16 cursor "
+    "column must not be compared with byte columns or used as a character index. Concrete token positions (off-by-one, "
+    "range containment, duplicates) are value facts and are not decided.",
+    [r9.r9_bytes_to_utf16, r9.r9_utf16_vs_bytes],
+)
